@@ -2059,6 +2059,12 @@ pub fn run(args: &Args, out: &mut Out) {
                 centre.iter().map(|c| random_arg(&mut rng, *c)).collect()
             };
             r.all_orders(&cands, &a, &Opts { with_defs, path: path.clone(), targs: Vec::new() }, out);
+            // every size of the visible set, down to a single inner overload next to the hidden outer one
+            if matches!(path, Path::NsInner | Path::NsNested | Path::MethodIntFirst) {
+                for k in 1..cands.len() {
+                    r.all_orders(&cands[..k], &a, &Opts { with_defs, path: path.clone(), targs: Vec::new() }, out);
+                }
+            }
         }
     }
 
